@@ -205,3 +205,100 @@ theorem removeDup_snoc {α : Type} [DecidableEq α] (e : α) (x : α) :
       · rw [if_neg hc, if_neg (fun hh => hc (e1.mpr hh))]; rfl
 
 end Logs
+
+namespace Logs
+
+/-- a run of characters without quote (and, outside quotes, without separator) is appended to
+the current field -/
+theorem fieldsQ_run (sep : Char) (q : Bool) :
+    ∀ (s cur rest : List Char) (acc : List (List Char)),
+      (∀ c ∈ s, c ≠ '"') → (q = false → ∀ c ∈ s, c ≠ sep) →
+      fieldsQ sep q cur (s ++ rest) acc = fieldsQ sep q (s.reverse ++ cur) rest acc := by
+  intro s
+  induction s with
+  | nil => intro cur rest acc _ _; rfl
+  | cons c cs ih =>
+    intro cur rest acc h1 h2
+    have hc : c ≠ '"' := h1 c (by simp)
+    have hq : (if (c == '"') = true then !q else q) = q := by simp [hc]
+    have hsplit : (!q && c == sep) = false := by
+      cases q with
+      | true => simp
+      | false => have := h2 rfl c (by simp); simp [this]
+    simp only [List.cons_append, fieldsQ, hq, hsplit, Bool.false_eq_true, if_false]
+    rw [ih (c :: cur) rest acc (fun x hx => h1 x (by simp [hx])) (fun hq' x hx => h2 hq' x (by simp [hx]))]
+    simp
+
+/-- **A quoted value is kept whole.** Splitting `key="value"` at `=` gives exactly the key and
+the quoted value, whatever the value holds besides a double quote (spaces, `=`, `#`, `,`, any
+byte), and leaves the toggle where it found it. -/
+theorem fieldsQ_kv (k v : List Char) (hk1 : ∀ c ∈ k, c ≠ '"') (hk2 : ∀ c ∈ k, c ≠ '=') (hkne : k ≠ [])
+    (hv : ∀ c ∈ v, c ≠ '"') :
+    fieldsQ '=' false [] (k ++ '=' :: '"' :: (v ++ ['"'])) [] = (false, [k, '"' :: (v ++ ['"'])]) := by
+  rw [fieldsQ_run '=' false k [] _ [] hk1 (fun _ => hk2)]
+  have hk' : (k.reverse ++ []).isEmpty = false := by cases k <;> simp_all
+  simp only [fieldsQ, hk']
+  simp only [beq_self_eq_true, Bool.not_false, Bool.true_and, show (('=' : Char) == '"') = false from by decide,
+    Bool.false_eq_true, if_false, if_true]
+  simp only [Bool.not_true, Bool.false_and, Bool.false_eq_true, if_false]
+  rw [fieldsQ_run '=' true v ['"'] ['"'] _ hv (fun h => by cases h)]
+  simp [fieldsQ]
+
+theorem trimQuotes_quoted (v : List Char) (hv : ∀ c ∈ v, c ≠ '"') :
+    trimQuotes ('"' :: (v ++ ['"'])) = v := by
+  unfold trimQuotes
+  have h1 : ('"' :: (v ++ ['"'])).dropWhile (· == '"') = (v ++ ['"']).dropWhile (· == '"') := by simp
+  rw [h1]
+  cases v with
+  | nil => simp
+  | cons c cs =>
+    have hc : c ≠ '"' := hv c (by simp)
+    have h2 : ((c :: cs) ++ ['"']).dropWhile (· == '"') = (c :: cs) ++ ['"'] := by simp [hc]
+    rw [h2]
+    have h3 : ((c :: cs) ++ ['"']).reverse = '"' :: (c :: cs).reverse := by simp
+    rw [h3]
+    have h4 : ('"' :: (c :: cs).reverse).dropWhile (· == '"') = (c :: cs).reverse.dropWhile (· == '"') := by simp
+    rw [h4]
+    -- the last character of the value is not a quote
+    have hlast : ∀ (l : List Char), (∀ x ∈ l, x ≠ '"') → l.reverse.dropWhile (· == '"') = l.reverse := by
+      intro l hl
+      cases hr : l.reverse with
+      | nil => rfl
+      | cons d ds =>
+        have : d ∈ l := by
+          have : d ∈ l.reverse := by rw [hr]; simp
+          simpa using this
+        simp [hl d this]
+    rw [hlast (c :: cs) hv]
+    simp
+
+end Logs
+
+namespace Logs
+
+def hexDigitU (n : Nat) : Char := if n < 10 then Char.ofNat (48 + n) else Char.ofNat (55 + n)
+
+/-- the kernel's encoding of a byte string -/
+def hexEncode : List Char → List Char
+  | [] => []
+  | c :: cs => hexDigitU (c.toNat / 16) :: hexDigitU (c.toNat % 16) :: hexEncode cs
+
+theorem byte_roundtrip : ∀ n : Fin 256,
+    hexVal (hexDigitU (n.val / 16)) * 16 + hexVal (hexDigitU (n.val % 16)) = n.val := by decide +kernel
+
+theorem hexEncode_isHex : ∀ n : Fin 256,
+    isHexU (hexDigitU (n.val / 16)) = true ∧ isHexU (hexDigitU (n.val % 16)) = true := by decide +kernel
+
+/-- hex-encoded bytes decode to the original bytes -/
+theorem decode_encode : ∀ (bs : List Char), (∀ c ∈ bs, c.toNat < 256) → decodePairs (hexEncode bs) = bs
+  | [], _ => rfl
+  | c :: cs, h => by
+    have hc : c.toNat < 256 := h c (by simp)
+    have := byte_roundtrip ⟨c.toNat, hc⟩
+    simp only [hexEncode, decodePairs]
+    rw [decode_encode cs (fun x hx => h x (by simp [hx]))]
+    simp only at this
+    rw [this]
+    simp [Char.ofNat_toNat]
+
+end Logs
